@@ -147,9 +147,15 @@ def fetchSub (s : St) (md : Mod) (topic : String) : Option SrcId :=
     let sorted := live.mergeSort (fun a b => (s.srcs[a]?.map (·.slot)).getD 0 ≤ (s.srcs[b]?.map (·.slot)).getD 0)
     sorted.find? (fun i => match s.srcs[i]? with | some x => s.rx.contains (x.topic, topic) | none => false)
 
-/-- module ids in table (slot) order -/
+/-- the slots in the order in which iterations scan the table: circularly, starting right after the
+first empty slot (map.c `hashmap_first_empty`) -/
+def St.scanOrder (s : St) : List Nat :=
+  let e := ((List.range tableSize).find? fun i => (s.modAtSlot i).isNone).getD tableSize
+  (List.range (tableSize - 1)).map fun i => (e + 1 + i) % tableSize
+
+/-- module ids in table (scan) order -/
 def St.tableOrder (s : St) : List ModId :=
-  (List.range tableSize).filterMap s.modAtSlot
+  s.scanOrder.filterMap s.modAtSlot
 
 /-- `tell_pubsub_msg` -/
 def tellPubsub (s : St) (msg : Msg) (recipient : Option ModId) : St :=
@@ -369,13 +375,13 @@ def iterSlots (f : ModId → Prog Int) : (slots : List (Nat × Bool)) → (again
           else if s'.tableLen != n then pure EACCES
           else iterSlots f rest none
 
-def slotList : List (Nat × Bool) :=
-  (List.range tableSize).flatMap fun i => [(i, false), (i, true), (i, true)]
+def slotList (s : St) : List (Nat × Bool) :=
+  s.scanOrder.flatMap fun i => [(i, false), (i, true), (i, true)]
 
 /-- `m_iterate(c->modules, fn, NULL)`; `m_map_iterate` refuses an empty map -/
 def iterMods (f : ModId → Prog Int) : Prog Int := do
   let s ← getSt
-  if s.tableLen = 0 then pure EINVAL else iterSlots f slotList none
+  if s.tableLen = 0 then pure EINVAL else iterSlots f (slotList s) none
 
 /-! ## Deregistration and the context (mod.c `mod_deregister`, ctx.c) -/
 
